@@ -265,16 +265,24 @@ pub fn src_blk(b: &Blk, o: &mut String) {
 
 pub fn source(p: &Prog) -> String {
     let mut o = String::new();
+    // the built-in `Option[T]` is not declared; its type is spelled `T?`
+    let ty_name = |en: &str| -> String {
+        if en == "Option" {
+            if let Some(d) = p.enums.iter().find(|d| d.name == "Option") { return format!("{}?", d.variants[1].1[0].name()); }
+        }
+        en.to_string()
+    };
     for en in &p.enums {
+        if en.name == "Option" { continue; }
         let vs: Vec<String> = en.variants.iter().map(|(k, fs)| {
             if fs.is_empty() { k.clone() } else { format!("{k}({})", fs.iter().map(|t| t.name()).collect::<Vec<_>>().join(", ")) }
         }).collect();
         let _ = writeln!(o, "enum {} {{ {} }}", en.name, vs.join(", "));
     }
     for f in &p.fns {
-        let mut ps: Vec<String> = f.xparams.iter().map(|(x, en)| format!("{x}: {en}")).collect();
+        let mut ps: Vec<String> = f.xparams.iter().map(|(x, en)| format!("{x}: {}", ty_name(en))).collect();
         ps.extend(f.params.iter().map(|(x, t)| format!("{x}: {}", t.name())));
-        let ret = f.xret.clone().unwrap_or_else(|| f.ret.name().to_string());
+        let ret = f.xret.as_ref().map(|en| ty_name(en)).unwrap_or_else(|| f.ret.name().to_string());
         let _ = write!(o, "fn {}({}) -> {} ", f.name, ps.join(", "), ret);
         src_blk(&f.body, &mut o);
         o.push('\n');
